@@ -140,7 +140,7 @@ def M3(ctx: Ctx) -> RuleResult:
             for t, pol in gs:
                 if isinstance(t, Op) and t.op == 'loop-completes' and pol:
                     lp = next((e for e in o.effects if isinstance(e, Loop) and e.iter == t.args[0]), None)
-                    if lp is not None and 'kwargs' in repr(lp.iter):
+                    if lp is not None and any(isinstance(x, Sym) and x.name.startswith('**') for x in walk(lp.iter)):
                         good = bool(lp.paths)
                         for pg, flow, binds, effs in lp.paths:
                             tests = norm_guards(pg)
